@@ -1,7 +1,7 @@
-\* random histories of 8 operations over 6-block trees with two shared transactions (-simulate)
+\* random histories of 8 operations over 5-block trees with two shared transactions (-simulate); every 6-block tree would be 14 M initial states, too many for the simulator
 SPECIFICATION GSpec
 CONSTANTS
-  BSeq <- B6
+  BSeq <- B5
   MaxDiff = 2
   TxSeq <- Tx2
   Mode = "full"
